@@ -64,22 +64,39 @@ def ensure_driver():
 
 
 def extract(repo=REPO, crate="ureq_proto", overflow_checks=True, manifest_dir=None):
-    """Run the driver; returns path of the facts file. Raises ToolError on failure."""
-    ensure_driver()
+    """Run the driver; returns path of the facts file. Raises ToolError on failure.
+    Serialised by a file lock so that concurrent checks share one extraction."""
+    import fcntl
     os.makedirs(CACHE, exist_ok=True)
+    tag = os.environ.get("HOOT_CACHE_TAG", "")
+    with open(os.path.join(CACHE, "extract%s.lock" % tag), "w") as lk:
+        fcntl.flock(lk, fcntl.LOCK_EX)
+        try:
+            return _extract(repo, crate, overflow_checks, manifest_dir)
+        finally:
+            fcntl.flock(lk, fcntl.LOCK_UN)
+
+
+def _extract(repo, crate, overflow_checks, manifest_dir):
+    ensure_driver()
     flavour = "dbg" if overflow_checks else "rel"
     key = tree_hash(repo, crate + flavour)
     out = os.path.join(CACHE, "facts-%s-%s-%s.json" % (crate, flavour, key))
     if os.path.exists(out) and os.path.getsize(out) > 1000:
         return out
-    # prune old fact files
-    for f in os.listdir(CACHE):
+    # prune old fact files (not while a self-test runs scratch copies side by side)
+    for f in ([] if os.environ.get("HOOT_CACHE_TAG") else os.listdir(CACHE)):
         if f.startswith("facts-%s-%s-" % (crate, flavour)):
             try:
                 os.remove(os.path.join(CACHE, f))
             except OSError:
                 pass
-    target = os.path.join(CACHE, "target-%s" % flavour)
+    tag = os.environ.get("HOOT_CACHE_TAG")
+    target = os.path.join(CACHE, "target-%s%s" % (flavour, ("-" + tag) if tag else ""))
+    base = os.path.join(CACHE, "target-%s" % flavour)
+    if tag and not os.path.isdir(target) and os.path.isdir(base):
+        # scratch copies start from a hard-linked copy of the dependency build
+        subprocess.run(["cp", "-al", base, target], check=False)
     # cargo's freshness cache would skip the wrapper for an unchanged member: remove the
     # member's fingerprints so that it is always re-checked (dependencies stay cached).
     fp = os.path.join(target, "debug", ".fingerprint")
